@@ -261,6 +261,28 @@ NOT_APPLICABLE = {
     "C01": "value equivalence of JIT code and emulation over all inputs/register allocations: no structural necessary condition beyond what C03/C10/C11 decide; needs execution or translation validation (other technique families)",
 }
 
+ADDENDA8 = {
+    "C02": ("; discriminator rule for the constant pool", " Also decides that a constant-pool lookup compares a key field only for entries of that kind."),
+    "C03": ("; token-cursor rules for the .n/.m directives (shared with C15); array-operand rule for load/store opcodes (shared with C05); aligned-flag rule for program-chosen displacements", " Also decides that the iteration space is taken from each token once, that the array operand of a load or store opcode must be an array, and that an access whose displacement contains a program-chosen value is never emitted as aligned."),
+    "C04": ("; must-pass-through rule for fresh duplicates of re-defined temporaries", " Also decides that every further definition of a temporary goes through orc_compiler_dup_temporary, the premise for emitting invariant loads once."),
+    "C05": ("; finite evaluation of the operand-class checks of orc_compiler_check_sizes; upper-bound rule for per-element code generation; positive-divisor rule; fixup tables armed in the capacity rule", " Also decides that scalar and array operand positions are checked before a back end sees them, that code is generated once per declared element only under a constant bound, that no division by a variable's size/alignment can trap, and that every back end bounds its fixup table."),
+    "C06": ("; distinctness rule for rule-scratch registers; executable-target rule for installing code; zero-check rule for general-register allocations; lock pairing on the allocator's failure exits (shared with C08)", " Also decides that a scratch register is excluded once handed out, that generated code becomes the entry point only for a target executable here, that a failed general-register allocation is reported unless the field has a memory fallback, and that the allocator's failure exits release the mutex."),
+    "C07": ("; per-flavour template rule for 16-bit accumulator write-back; float-mode trigger (shared with C18); lane-limiting rule for accumulating x86 rules", " Also decides that every flavour of generated C truncates a 2-byte accumulator, that FTZ|DAZ is switched on for programs that only consume floats too, and that accw/accl reduce their source to the iteration's lanes for every partial loop_shift."),
+    "C08": ("; double-checked-locking rule on both branches of orconce.h (as built and -std=gnu99); descriptor records and buffer-writer calls in the who-may-write rule", " Also decides that orc_once_enter re-reads the state under the mutex in the C11 and in the pre-C11 branch, and that target/rule-set descriptors and static buffers are not written on the compile path."),
+    "C09": ("; release-on-every-owning-path rule for the code object's destructor", " Also decides that orc_code_free releases the chunk whenever it is set."),
+    "C10": ("; register-bank classification evaluated over every register (shared with C12); disp8 range rules (shared)", " Also decides that no SSE/AVX instruction is emitted in its MMX form and that a store displacement is emitted as one byte only inside [-128, 127]."),
+    "C11": ("; constant-pool discriminator rule (shared with C02)", " Also decides that results do not depend on which constants the selected rules put into the pool."),
+    "C12": ("; register-bank / prefix classification; stateless name helpers; listing operand widths derived from the listing emitter itself (general-register width vs REX.W, VEX operand classes assembled with GNU as); distinct local labels", " Also decides that the prefix follows the register bank for every register, that name helpers return constant storage, that 64-bit reg->r/m operands are listed with 64-bit names, that every VEX register-form shape an emit site builds is listed as an instruction GNU as accepts, and that no local label number is defined twice."),
+    "C13": ("; who-may-write rule for the variable table", " Also decides that only the constructors fill OrcProgram.vars[].size and nothing clears it (dense slots are what the bytecode relies on)."),
+    "C14": ("; operand-class rule (shared with C05); end-pointer rule for every token-to-number conversion; completeness of the duplicate-name scan", " Also decides that what the parser accepts can be compiled without aborting, that a directive argument that is not a number is reported, and that the duplicate-name scan covers every variable slot."),
+    "C15": ("; abstract interpretation of the line tokenizer over character classes; read-only rule for program checkers; valid-index rule for per-variable setters; consume-once rule for token values; formatted line copies", " Also decides spacing and comment independence of the tokenizer (token starts, blanks before separators, token text, termination, no read past the line), that checking a parsed program leaves it as built, that attribute setters act on index 0, and that no value token is interpreted twice."),
+    "C16": ("; descriptor/mapping pairing of the dual-map allocator (shared with C06); destructor completeness and allocator locking (shared with C09/C08)", " Also decides that a failed region attempt leaks no descriptor or mapping, that orc_code_free releases what the object owns, and that the chunk list is touched only under the mutex."),
+    "C17": ("; whole-register definition before insert-into-lane loads", " Also decides that a load rule never leaves lanes of its destination as the caller left them."),
+    "C18": ("; unconditional-mode rule for the MXCSR prologue; must-definition of destination and scratch registers in three-operand (AVX) rules", " Also decides that no emitted branch skips the ldmxcsr, and that an AVX rule reads no destination or scratch register before writing it."),
+    "C19": ("; must-pass-through of the compile entry points; maximum-leaf guard for CPUID queries", " Also decides that every compile request reaches the compiler with its target, and that a basic CPUID leaf is read only where the maximum leaf is known to reach it."),
+    "C20": ("; all-operand-slots rule for compiler passes; agreement of stored and looked-up set keys; fresh rule lookup at every compile", " Also decides that every pass walks all source/destination slots, that an opcode set is found under the prefix it was registered with, that the text parser consults every set, and that no lookup result is remembered across compiles."),
+}
+
 
 def main():
     props = [json.loads(l) for l in open(os.path.join(VERIF, "properties.jsonl"))]
@@ -290,6 +312,9 @@ def main():
                 tech, text = tech + a[0], text + a[1]
             if pid in ADDENDA7:
                 a = ADDENDA7[pid]
+                tech, text = tech + a[0], text + a[1]
+            if pid in ADDENDA8:
+                a = ADDENDA8[pid]
                 tech, text = tech + a[0], text + a[1]
             checks.append({
                 "property_id": pid,
